@@ -1,6 +1,56 @@
-(* C20 — sub-quadratic multiplication cost (placeholder until the bank proofs land). *)
-From BigNum Require Import Base BaseLemmas AddSub Mul MulCost Extracted.
+(* C20 — multiplication cost grows sub-quadratically with operand size.
+   The work unit is the property's: the sum of the row lengths passed to the multiply-accumulate
+   row routine `mac_digit` with a non-zero multiplier (`add_work(b.len())` in /repo).
+   [MulCost.umul_c] is the multiplication model of C02 returning (product, work);
+   [MulCost.cost] is the work alone; [bank_cost mul n m] is the work of the product of the fixed
+   dense LCG operands of n and m digits.
+   - C20_erasure / C20_cost_defined: the instrumented model computes the same values as the C02
+     model (which C02 proves exact), for ALL operands — the counter is well defined.
+   - C20_quadratic: for ALL canonical operands the work is at most |a|·|b| (the third criterion,
+     universally; proved by induction, no evaluation).
+   - C20_bank: the kernel evaluates the bank products (each once, vm) and the criteria hold:
+     cost(2n) <= 3.25 cost(n), unbalanced (and balanced) cost <= lx*ly.
+     Quick part here: n = 256, 512, 1024; 256x511, 256x512, 512x1023, 512x1024.
+   - The slower part (2048, 4096 incl. cost(4096) < 4096^2/4, 1024x2047, 1024x2048, 256x16384)
+     is `MulCostBankBig.bank_big` (about 12 min of VM; built in the thorough tier).
+   - Sizes 8192, 16384 and n x 64n for n >= 512 are out of the VM's reach; there the check
+     compares the model's count with the implementation's counter exactly (driver vs hook)
+     and decides the criteria on the implementation's counts (tools/gen/c20.py). *)
+From BigNum Require Import Base BaseLemmas X86 AddSub AddSubProofs Mul MulCost
+  MulProofs MulProofs5 MulCostProofs MulCostQuad MulCostBank Extracted InstMul InstMulCost.
 Open Scope Z_scope.
 
-Example C20_nonvacuous : cost mul (bank_a 40) (bank_b 40) = Ret 1200.
-Proof. vm_compute. reflexivity. Qed.
+Theorem C20_erasure : forall a b, umul mul a b = omap fst (umul_c mul a b).
+Proof. intros; apply umul_erase. Qed.
+Print Assumptions C20_erasure.
+
+Theorem C20_cost_defined : forall a b, canon a -> canon b ->
+  exists w, umul_c mul a b = Ret (enc (val a * val b), w) /\ cost mul a b = Ret w.
+Proof. intros a b Ha Hb. apply cost_defined. apply umul_spec; auto using mul_params_ok. Qed.
+Print Assumptions C20_cost_defined.
+
+(** "Unbalanced products cost no more than the schoolbook count" — for ALL operands of any
+    length and shape (not only the bank): the work of a product is at most |a|·|b|. *)
+Theorem C20_quadratic : forall a b, canon a -> canon b ->
+  exists w, umul_c mul a b = Ret (enc (val a * val b), w) /\ cost mul a b = Ret w /\
+            0 <= w <= lenZ a * lenZ b.
+Proof. intros; apply cost_quadratic; auto using cost_params_ok. Qed.
+Print Assumptions C20_quadratic.
+
+Theorem C20_bank :
+  exists c256 c512 c1024 u1 u2 u3 u4,
+    bank_cost mul 256 256 = Ret c256 /\ bank_cost mul 512 512 = Ret c512 /\
+    bank_cost mul 1024 1024 = Ret c1024 /\
+    bank_cost mul 256 511 = Ret u1 /\ bank_cost mul 256 512 = Ret u2 /\
+    bank_cost mul 512 1023 = Ret u3 /\ bank_cost mul 512 1024 = Ret u4 /\
+    4 * c512 <= 13 * c256 /\ 4 * c1024 <= 13 * c512 /\
+    c256 <= 256 * 256 /\ c512 <= 512 * 512 /\ c1024 <= 1024 * 1024 /\
+    u1 <= 256 * 511 /\ u2 <= 256 * 512 /\ u3 <= 512 * 1023 /\ u4 <= 512 * 1024.
+Proof. exact bank_quick. Qed.
+Print Assumptions C20_bank.
+
+(* Non-vacuity: the bank operands are canonical, dense, and the Karatsuba regime is counted
+   (40 x 40 digits: three 20 x 20 long multiplications = 1200 digit products < 1600). *)
+Example C20_nonvacuous :
+  canonb (bank_a 40) = true /\ canonb (bank_b 40) = true /\ cost mul (bank_a 40) (bank_b 40) = Ret 1200.
+Proof. split; [|split]; vm_compute; reflexivity. Qed.
